@@ -244,6 +244,11 @@ func (o c13Op) String() string {
 		return fmt.Sprintf("handlelistpage(%s, limit=%d)", c13Q(o.Prefix), o.Limit)
 	case "clear":
 		return fmt.Sprintf("clearview(variant=%d)", o.Var)
+	case "cachectl":
+		if o.Var == 0 {
+			return fmt.Sprintf("cache-invalidate(%s)", c13Q(o.Key))
+		}
+		return "cache-purge"
 	}
 	return o.Kind
 }
@@ -482,8 +487,14 @@ func c13Gen(seed int64, index int, nops int) *c13Seq {
 			emit(c13Op{Kind: "put", Key: kit.Pick(rng, s.Keys), Val: val()})
 		case r < 46:
 			emit(c13Op{Kind: "del", Key: kit.Pick(rng, s.Keys)})
-		case r < 60:
+		case r < 58:
 			emit(c13Op{Kind: "get", Key: kit.Pick(rng, s.Keys)})
+		case r < 60:
+			if inTx {
+				emit(c13Op{Kind: "get", Key: kit.Pick(rng, s.Keys)})
+			} else {
+				emit(c13Op{Kind: "cachectl", Key: kit.Pick(rng, s.Keys), Var: rng.Intn(3) / 2})
+			}
 		case r < 69:
 			emit(c13Op{Kind: "list", Prefix: pickDir()})
 		case r < 92:
